@@ -155,6 +155,8 @@ def generate(rng, tier):
         elif u < 0.85:
             ts = rng.choice([0.1, 0.25, 0.3, 0.5, 0.7, 1, 2])
             tr = rng.choice([None, None, None, 0.3, 1])
+            if rng.random() < 0.15:
+                ts, tr = None, rng.choice([0.5, 0.6, 0.75, 1, 2])       # only the training share is given: the test set is its complement
             cs.append(mk_shuffle(es, ns, shape_arg, spacing_arg, rng.randint(1, 4), ts, tr, rng.randint(0, 10**6), rng.randint(1, 6),
                                  "shuffle-random"))
         else:
@@ -282,8 +284,19 @@ def oracle(case, io):
         sizes, parts = a
         if parts > len(sizes):
             return None if C.is_err(io) and io[1] == "ValueError" else "more parts than elements not rejected"
+        # independent reading of the documented rule: split where the running sum passes k * (total // parts); refuse only if that
+        # leaves an empty part (a split point at 0 or a repeated one)
+        import bisect
+        run, acc = [], 0
+        for v in sizes:
+            acc += v
+            run.append(acc)
+        want = [bisect.bisect_right(run, k * (acc // parts)) for k in range(1, parts)]
+        achievable = not (want and want[0] == 0) and len(set(want)) == len(want)
         if C.is_err(io):
-            return None if io[1] == "ValueError" else "unexpected error " + io[1]
+            if io[1] != "ValueError":
+                return "unexpected error " + io[1]
+            return f"refused although the split points {want} leave no part empty" if achievable else None
         pts = io
         if len(pts) != parts - 1 or any(b <= a_ for a_, b in zip(pts, pts[1:])) or (pts and (pts[0] <= 0 or pts[-1] >= len(sizes))):
             return f"split points {pts} leave an empty part"
